@@ -123,6 +123,16 @@ CHECKS["C12"] = dict(
     note=COMMON_NOTE + " ASE's constraint classes are modelled, not verified: each logged set_positions call is compared with the model. "
          "The code's inverse inertia tensor via ASE's eigen-decomposition is tied by certifying the residual of I omega = L in Coq.")
 
+CHECKS["C11"] = dict(
+    technique="Coq proof by list induction, polymorphic in the position type (Model/Displace.v, Proofs/DisplaceProofs.v, Props/C11.v) + "
+              "relational correspondence (oracle inference, vm_compute) against real DisplacementMove / CompositeDisplacementMove calls",
+    text="Theorems for all label arrays (negative, repeated, gaps, unsorted), all operation results, all composite sizes: only rows "
+         "carrying the selected label can change and they receive the operation's rows; a label chosen by the move is non-negative "
+         "and present; negative labels are never displaced; no eligible particle or all attempts vetoed => failure and unchanged "
+         "positions; composite: no particle twice, reported count = successful sub-moves, and exactly min(n, eligible) particles "
+         "move when nothing vetoes and the sub-moves share one labelling (admissible oracle answers).",
+    ref="§4 C11")
+
 NA_REASON = "check not built yet in this round (see DESIGN.md §8 order of construction); no weaker technique substituted"
 
 
